@@ -410,17 +410,17 @@ fn second_key_rejected(name: &'static str) -> bool {
 #[kani::stub(alloc::fmt::format, stub_format)]
 fn c16_clause_second_key_a() {
     assert!(second_key_rejected("_system"), "OBL:C16.clause.set_protected");
-    assert!(second_key_rejected("space_seq"), "OBL:C16.clause.set_protected");
     kani::cover!(true, "COVER:reach");
 }
 
-/// The other two engine-owned names in second position (thorough tier).
+/// The other three engine-owned names in second position (thorough tier).
 #[kani::proof]
 #[kani::unwind(12)]
 #[kani::stub(alloc::fmt::format, stub_format)]
 fn c16_clause_second_key_b() {
     assert!(second_key_rejected("governance"), "OBL:C16.clause.set_protected");
     assert!(second_key_rejected("space_id"), "OBL:C16.clause.set_protected");
+    assert!(second_key_rejected("space_seq"), "OBL:C16.clause.set_protected");
     // (no acceptance cover here: two ordinary keys mean two insertions into the
     // BTreeSet<&str>, which gave no verdict in 600 s)
     kani::cover!(true, "COVER:reach");
@@ -496,33 +496,62 @@ fn c16_clause_plan_empty() {
     kani::cover!(true, "COVER:reach");
 }
 
-/// A plan whose FIRST / SECOND clause names an engine-owned key is rejected as
-/// a whole: the plan validator runs the clause validator on every clause.
+fn archive_param() -> MutationClause {
+    MutationClause::Archive(RemovalStatement {
+        target: ElementRef::Param(sv("o")),
+        where_clauses: None,
+        limit: None,
+        expect_state: None,
+    })
+}
+
+/// The plan validator runs the clause validator on EVERY clause: a plan whose
+/// second clause is a PURGE with a near-miss confirmation, and a plan whose
+/// first clause unsets an engine-owned key, are rejected as a whole.
 #[kani::proof]
 #[kani::unwind(12)]
 #[kani::stub(alloc::fmt::format, stub_format)]
 fn c16_clause_plan_every_clause() {
-    let archive = || {
-        MutationClause::Archive(RemovalStatement {
-            target: ElementRef::Param(sv("o")),
-            where_clauses: None,
-            limit: None,
-            expect_state: None,
-        })
-    };
-    // second clause
+    // second clause: PURGE :t CONFIRM "purge"
+    {
+        stack_vec!(
+            cl = [
+                archive_param(),
+                MutationClause::Purge(crate::ast::PurgeStatement {
+                    target: ElementRef::Param(sv("t")),
+                    where_clauses: None,
+                    limit: None,
+                    reference_policy: None,
+                    confirm: sv("purge"),
+                })
+            ]
+        );
+        let r = ManuallyDrop::new(validate_plan(&plan(cl)));
+        assert!(r.is_err(), "OBL:C16.clause.plan_checks_every_clause");
+    }
+    // first clause: UPDATE :t UNSET ATTRIBUTES {space_seq}
+    {
+        stack_vec!(u = [sv("space_seq")]);
+        stack_vec!(acts = [UpdateAction::UnsetAttributes(u)]);
+        stack_vec!(cl = [ManuallyDrop::into_inner(update(acts)), archive_param()]);
+        let r = ManuallyDrop::new(validate_plan(&plan(cl)));
+        assert!(r.is_err(), "OBL:C16.clause.plan_checks_every_clause");
+    }
+    kani::cover!(true, "COVER:reach");
+}
+
+/// Second clause: `UPDATE :t SET ATTRIBUTES {_system: :v}` after an acceptable
+/// first clause. (Kept apart from the harness above: if a change lets this plan
+/// past the clause validator, CBMC does not finish the handle passes over the
+/// assignment — measured 860 s without verdict — and the verdict would be lost.)
+#[kani::proof]
+#[kani::unwind(12)]
+#[kani::stub(alloc::fmt::format, stub_format)]
+fn c16_clause_plan_second_clause_key() {
     stack_vec!(a = [(sv("_system"), val())]);
     stack_vec!(acts = [UpdateAction::SetAttributes(a)]);
-    stack_vec!(cl = [archive(), ManuallyDrop::into_inner(update(acts))]);
-    let p = plan(cl);
-    let r = ManuallyDrop::new(validate_plan(&p));
-    assert!(r.is_err(), "OBL:C16.clause.plan_checks_every_clause");
-    // first clause
-    stack_vec!(u = [sv("space_seq")]);
-    stack_vec!(acts = [UpdateAction::UnsetAttributes(u)]);
-    stack_vec!(cl = [ManuallyDrop::into_inner(update(acts)), archive()]);
-    let p = plan(cl);
-    let r = ManuallyDrop::new(validate_plan(&p));
+    stack_vec!(cl = [archive_param(), ManuallyDrop::into_inner(update(acts))]);
+    let r = ManuallyDrop::new(validate_plan(&plan(cl)));
     assert!(r.is_err(), "OBL:C16.clause.plan_checks_every_clause");
     kani::cover!(true, "COVER:reach");
 }
@@ -550,28 +579,32 @@ fn create_concept_bare(handle: &'static str) -> MutationClause {
 }
 
 /// A handle that no clause of the plan declares and no WHERE binds is rejected:
-/// `ARCHIVE ?x` and `MERGE CONCEPT ?s INTO :k` as one-clause plans.
+/// the one-clause plan `ARCHIVE ?x`.
 #[kani::proof]
 #[kani::unwind(12)]
 #[kani::stub(alloc::fmt::format, stub_format)]
 fn c16_clause_plan_unbound_handle() {
-    {
-        stack_vec!(cl = [archive(ElementRef::Handle(sv("x")))]);
-        let r = ManuallyDrop::new(validate_plan(&plan(cl)));
-        assert!(r.is_err(), "OBL:C16.clause.unbound_handle_rejected");
-    }
-    {
-        stack_vec!(
-            cl = [MutationClause::MergeConcept(MergeConcept {
-                source: ElementRef::Handle(sv("s")),
-                into: ElementRef::Param(sv("k")),
-                where_clauses: None,
-                expect_version: None,
-            })]
-        );
-        let r = ManuallyDrop::new(validate_plan(&plan(cl)));
-        assert!(r.is_err(), "OBL:C16.clause.unbound_handle_rejected");
-    }
+    stack_vec!(cl = [archive(ElementRef::Handle(sv("x")))]);
+    let r = ManuallyDrop::new(validate_plan(&plan(cl)));
+    assert!(r.is_err(), "OBL:C16.clause.unbound_handle_rejected");
+    kani::cover!(true, "COVER:reach");
+}
+
+/// Likewise `MERGE CONCEPT ?s INTO :k` (thorough tier).
+#[kani::proof]
+#[kani::unwind(12)]
+#[kani::stub(alloc::fmt::format, stub_format)]
+fn c16_clause_plan_unbound_merge_source() {
+    stack_vec!(
+        cl = [MutationClause::MergeConcept(MergeConcept {
+            source: ElementRef::Handle(sv("s")),
+            into: ElementRef::Param(sv("k")),
+            where_clauses: None,
+            expect_version: None,
+        })]
+    );
+    let r = ManuallyDrop::new(validate_plan(&plan(cl)));
+    assert!(r.is_err(), "OBL:C16.clause.unbound_handle_rejected");
     kani::cover!(true, "COVER:reach");
 }
 
